@@ -80,7 +80,10 @@ class Prop(BaseProp):
         res.see("options", f"r={int(recursive)} auto={int(auto)} out={outmode}")
         res.see("order_modes", order_mode)
         with runner.sandbox() as sb:
-            inp = os.path.join(sb, "work", "proj")
+            # (the directory above the input may carry characters that are special in glob patterns: a path is a path)
+            wname = rng.choice(["work", "work", "work", "work[v2]", "wo*k", "w?rk", "work{a,b}"])
+            res.see("input_parent_directory_names", wname)
+            inp = os.path.join(sb, wname, "proj")
             if outmode == "nested" and idx < self.NR[self.tier] and rng.random() < 0.5:
                 # sibling of the (nested) output directory whose name merely starts with the output directory's name
                 for extra in ("docs_out-internal", "docs_outer"):
@@ -88,7 +91,7 @@ class Prop(BaseProp):
                     tree.files[os.path.join(extra, "inside.cmake")] = cmake_text(os.path.join(extra, "inside.cmake"))
                 res.count("output_dir_is_prefix_of_sibling_runs")
             tree.write(inp)
-            cwd = os.path.join(sb, "work")
+            cwd = os.path.join(sb, wname)
             home = os.path.join(sb, "home")
             os.makedirs(home)
             out_abs = {"abs": os.path.join(sb, "out", "docs"), "rel": os.path.join(cwd, "build", "docs"),
